@@ -275,7 +275,7 @@ def run_impl(inp, work):
             r['resume'] = {
                 'error': b['error'], 'status_done': st2 == [1] * inp['n'],
                 'results_ok': rs2 == _expected_final(inp, final, prior, was_prior),
-                'same_group': g2 == gname,
+                'same_group': g2 == gname, 'survivor_has_group': gname in groups, 'survivor_has_status': st is not None,
                 'calls_ok': sorted(b['calls']) == ([p for p in range(inp['n']) if before[g2][0][p] == 0]
                                                    if g2 in before and before[g2][0] is not None
                                                    else list(range(inp['n']))),
@@ -375,6 +375,14 @@ def oracle(inp, obs):
                                  % (kind, where))
                 if not res['untouched_ok']:
                     fails.append('resume-untouched-%s: an already-completed result was rewritten (%s)' % (kind, where))
+                # resumes IN the interrupted group when it is resumable, otherwise starts a fresh one
+                # (an ordinary exception may be swallowed by an attribute writer: the group then lacks a parameter and is
+                #  rightly not recognised - the group check is made for graceful / kill survivors)
+                if kind != 'exception' and res.get('survivor_has_status') and not res['same_group']:
+                    fails.append('resume-group-%s: the interrupted group has a progress record but the computation went on '
+                                 'in another group (%s)' % (kind, where))
+                if kind != 'exception' and res.get('survivor_has_group') and res.get('survivor_has_status') is False and res['same_group']:
+                    fails.append('resume-group-%s: the interrupted group has no progress record yet was reused (%s)' % (kind, where))
             if kind == 'kill' and r.get('durable_missing'):
                 fails.append('durable-%s: marks %s written before the last checkpoint are not in the kill survivor '
                              '(crash before event %d)' % (tag, r['durable_missing'], rec['i']))
